@@ -56,6 +56,8 @@ def op_jdn(op):
         return [Kw("dlc"), op[1], op_jdn(op[2])]
     if k == "trw":
         return [Kw("trw"), op[1], op[2], op_jdn(op[3])]
+    if k == "tcd":
+        return [Kw("tcd"), op_jdn(op[1])]
     raise ValueError(op)
 
 
@@ -110,6 +112,12 @@ def make_actions(cfg):
                    ("dlc", 1, ("sleep", 3))]
             if nchan:
                 ops.append(("dlc", 1, ("take", 0)))
+            if cfg.get("focus") == "thread":
+                # a thread call abandoned at its deadline, the thread finishing afterwards, then a real wait (every
+                # such history costs real-time patience for the live thread, hence a configuration of its own)
+                ops.append(("tcd", ("sleep", 3)))
+                if nchan:
+                    ops.append(("tcd", ("take", 0)))
             for c in range(nchan):
                 ops += [("give", c, base), ("take", c), ("close", c),
                         ("dl", 2, ("give", c, base)), ("dl", 2, ("take", c))]
@@ -149,9 +157,15 @@ def make_actions(cfg):
             def reads(o):
                 if o[0] == "trw":
                     return o[1]
+                if o[0] == "tcd":
+                    return None
                 o2 = o[2] if o[0] in ("dl", "dlc") else (o[3] if o[0] == "badw" else o)
                 return o2[1] if o2[0] in ("read", "chunk") else None
             ops = [o for o in ops if reads(o) is None or reads(o) not in busy_p]
+            if cfg.get("focus") == "thread":
+                def keep_t(o):
+                    return o[0] == "tcd" or o in (("sleep", 1), ("sleep", 3), ("take", 0), ("give", 0, base), ("dl", 2, ("take", 0)))
+                ops = [o for o in ops if keep_t(o)]
             if cfg.get("focus") == "proc":
                 # small alphabet around subprocess waits so that depth 4-6 is affordable
                 def keep(o):
@@ -189,6 +203,8 @@ def shape(a):
             return "dlc(" + osh(op[2]) + ")"
         if op[0] == "trw":
             return "trw(" + osh(op[3]) + ")"
+        if op[0] == "tcd":
+            return "tcd(" + osh(op[1]) + ")"
         return op[0]
     return a[0] + (":" + osh(a[2]) if a[0] == "start" else "")
 
@@ -281,6 +297,9 @@ def replay_text(cfg, hist, what):
             return "(os/proc-wait (procs %d))" % op[1]
         if k == "dlc":
             return "(do (resume (coro (ev/deadline %s) :done)) %s)" % (op[1], oe(op[2]))
+        if k == "tcd":
+            return ("(do (def tc (ev/thread-chan 1)) (try (ev/with-deadline 0.5 (ev/thread (fn [tc] (ev/take tc)) tc)) ([e] nil)) "
+                    "(ev/give tc 1) %s)" % oe(op[1]))
         if k == "trw":
             return "(do (try (ev/read ((pipes %d) 0) 4 nil %s) ([e] nil)) %s)" % (op[1], op[2], oe(op[3]))
     lines.insert(3, '(def procs (seq [_ :range [0 %d]] (os/spawn ["/bin/sh" "-c" "read x; exit 3"] :px {:in :pipe})))' % cfg.get("nprocs", 0))
@@ -351,22 +370,26 @@ def main():
     if chk.quick:
         cfgs = [(dict(caps=(0,), nw=2), 5), (dict(caps=(1,), nw=2), 5), (dict(caps=(0, 1), nw=2), 4),
                 (dict(caps=(0,), nw=3), 4), (dict(caps=(), nw=2, npipes=1), 4), (dict(caps=(0,), nw=2, npipes=1), 3),
-                (dict(caps=(0,), nw=2, nprocs=1, npipes=1, free_tick=True, focus="proc"), 4)]
+                (dict(caps=(0,), nw=2, nprocs=1, npipes=1, free_tick=True, focus="proc"), 4),
+                (dict(caps=(0,), nw=2, free_tick=True, focus="thread"), 2)]
     else:
         cfgs = [(dict(caps=(0,), nw=2), 8), (dict(caps=(1,), nw=2), 8), (dict(caps=(2,), nw=2), 7),
                 (dict(caps=(0, 1), nw=2), 6), (dict(caps=(0, 0), nw=2), 6), (dict(caps=(1, 1), nw=2), 6),
                 (dict(caps=(0,), nw=3), 7), (dict(caps=(1,), nw=3), 7), (dict(caps=(0, 1), nw=3), 5),
                 (dict(caps=(), nw=2, npipes=1), 8), (dict(caps=(0,), nw=2, npipes=1), 6),
                 (dict(caps=(), nw=3, npipes=2), 5), (dict(caps=(0,), nw=2, nprocs=1, npipes=1, free_tick=True, focus="proc"), 6),
-                (dict(caps=(), nw=2, nprocs=2, npipes=1, free_tick=True), 4)]
+                (dict(caps=(), nw=2, nprocs=2, npipes=1, free_tick=True), 4),
+                (dict(caps=(0,), nw=2, free_tick=True, focus="thread"), 5)]
     cfgs.sort(key=lambda cd: 0 if cd[0].get("focus") else 1)
     done = []
     for i, (cfg, depth) in enumerate(cfgs):
         if chk.out_of_time(0.9):
             chk.cap("config %r depth %d not started (time budget)" % (cfg, depth))
             continue
-        # every configuration gets an equal slice of what is left
-        slice_end = chk.elapsed() + (chk.budget * 0.9 - chk.elapsed()) / (len(cfgs) - i)
+        # every configuration gets a slice of what is left; configurations with real threads or child processes pay
+        # real-time patience per step and count double
+        weights = [2.0 if c.get("focus") else 1.0 for c, _ in cfgs[i:]]
+        slice_end = chk.elapsed() + (chk.budget * 0.9 - chk.elapsed()) * weights[0] / sum(weights)
         r = explore(chk, cfg, depth, stop_at=slice_end)
         done.append("%s:depth %d" % (cfg, r["depth_completed"]))
     chk.sample({"history": "[('start',0,('dl',2,('give',0,100))), ('tick',2.0), ('start',0,('sleep',3)), ('start',1,('take',0)), ('tick',3.0)]",
